@@ -120,6 +120,59 @@ def project_reg(e):
     return {"t": e["t"], "seq": e["seq"], "e": "Row", "in": e["in"], "out": {k: o[k] for k in REG_OUT_KEYS}}
 
 
+def harvest(ctx, name):
+    """after a failed shard run: the Row events that were written, and the rows whose Begin line has no Row line in a
+    shard whose log shows a crash of the process inside maddy's code (stack overflow, fatal error, unrecovered panic)"""
+    d = os.path.join(ctx.work, name)
+    got, bad = [], []
+    for f in sorted(os.listdir(d)):
+        if not (f.startswith("out") and f.endswith(".ndjson")):
+            continue
+        begun, done = [], set()
+        for line in open(os.path.join(d, f)):
+            line = line.strip()
+            if not line:
+                continue
+            try:
+                e = json.loads(line)
+            except ValueError:
+                continue
+            if e["e"] == "Begin":
+                begun.append(e["t"])
+            else:
+                done.add(e["t"])
+                got.append(e)
+        left = [t for t in begun if t not in done]
+        log = os.path.join(d, f.replace("out", "log").replace(".ndjson", ".txt"))
+        txt = open(log, errors="replace").read() if os.path.exists(log) else ""
+        if left and ("panic:" in txt or "fatal error:" in txt or "stack overflow" in txt) and "foxcpp/maddy" in txt:
+            k = max(txt.find("fatal error:"), txt.find("panic:"), 0)
+            bad.append((left[-1], txt[k:k + 2000]))
+    return got, bad
+
+
+def shards_with_crashes(ctx, binary, items, name):
+    """run_shards; a row that kills the process is a statement about maddy (NoPanic), the rest of its shard is re-run"""
+    pending, events, crashed = items, [], []
+    for attempt in range(6):
+        nm = name if attempt == 0 else "%s%d" % (name, attempt)
+        try:
+            events += ctx.run_shards(binary, pending, timeout=1500, name=nm)
+            pending = []
+            break
+        except vlib.Infra:
+            got, bad = harvest(ctx, nm)
+            if not bad:
+                raise
+            events += got
+            crashed += bad
+            done = {e["t"] for e in got} | {t for t, _ in bad}
+            pending = [it for it in pending if it["id"] not in done]
+    if pending and not crashed:
+        raise vlib.Infra("%d rows were not run" % len(pending))
+    return [e for e in events if e["e"] == "Row"], crashed, pending
+
+
 def run_registry(ctx, replay_row, binary):
     """layer "r": instances and references (spec/CfgMapReg.tla).  Returns (rows, events, verdicts, accepted)."""
     thorough = ctx.tier == "thorough"
@@ -137,8 +190,15 @@ def run_registry(ctx, replay_row, binary):
         ctx.log("TLC: %d configurations of blocks and references; refused iff a documented defect, accepted as "
                 "documented, on the rule, %.1fs" % (r["distinct"], r["wall"]))
     items = [{"id": row["id"], "in": row["in"], "text": row["text"]} for row in rows]
-    events = [e for e in ctx.run_shards(binary, items, timeout=1500, name="reg-replay") if e["e"] == "Row"]
-    if len(events) != len(items):
+    events, crashed, notrun = shards_with_crashes(ctx, binary, items, "reg-replay")
+    for t, tail in crashed:
+        events.append({"t": t, "seq": 2, "e": "Row", "in": [r for r in rows if r["id"] == t][0]["in"],
+                       "out": {"panic": True, "err": {"is": False, "stage": "none", "line": 0, "mentions": []},
+                               "objs": [], "uses": [], "order": [], "msg": "the process crashed: " + tail}})
+    if crashed:
+        ctx.log("the loader crashed the process on %d configurations (%d not run)" % (len(crashed), len(notrun)))
+        rows = [r for r in rows if r["id"] not in {it["id"] for it in notrun}]
+    elif len(events) != len(items):
         raise vlib.Infra("loader harness answered %d of %d rows" % (len(events), len(items)))
     ctx.log("real loader answered %d configurations" % len(events))
     selftest = {}
@@ -218,8 +278,8 @@ def run_map(ctx, replay):
         rows = [obj["row"]]
         rows[0]["id"] = 1
     else:
-        maxnodes = 3 if thorough else 2
-        randn = 20000 if thorough else 2500
+        maxnodes = 4 if thorough else 2
+        randn = 40000 if thorough else 2500
         r = ctx.tlc_expect_ok("CfgMap", None, name="mc", workers=8, timeout=2400,
                               cfg_text=MC_CFG % dict(devs="", gen="TRUE", seed=ctx.seed, randn=randn, maxnodes=maxnodes,
                                                      inv="RuleSatisfiesProp RuleIsDecisive", emit="CONSTRAINT Emit"))
@@ -410,7 +470,7 @@ def run_map(ctx, replay):
                        "directive), structure table (blocks of up to MaxNodes of 10 node templates x AllowUnknown x "
                        "required), global structure table (up to 2 of 11 top-level templates around an inheriting block), "
                        "RandN mixed rows drawn from Seed = VERIF_SEED; every row goes through the real code in both tiers "
-                       "(quick MaxNodes=2, RandN=2500; thorough MaxNodes=3, RandN=20000); non-trivial = some directive is "
+                       "(quick MaxNodes=2, RandN=2500; thorough MaxNodes=4, RandN=40000); non-trivial = some directive is "
                        "written")
     ctx.cov.setdefault("violated_predicates", {}).update(preds)
     ctx.cov["exhaustive"] = True
@@ -660,6 +720,17 @@ def registry_verdicts(ctx, replay, binary):
 
 
 def run(ctx, replay):
+    # anything that goes wrong in the machinery itself says nothing about maddy: exit 2, never 1
+    try:
+        _run(ctx, replay)
+    except vlib.Infra:
+        raise
+    except Exception as e:      # noqa: BLE001
+        import traceback
+        raise vlib.Infra("the check itself failed: %r\n%s" % (e, traceback.format_exc()[-1500:]))
+
+
+def _run(ctx, replay):
     obj = json.load(open(replay)) if replay else None
     layer = obj.get("layer", "m") if obj else None
     if layer in (None, "r", "l"):
